@@ -15,7 +15,8 @@ EXPLANATION = (
     "the distance, sibling pushes add 0.")
 DECIDED = ["R14a forward/reverse and BFS/DFS sibling agreement of expand (SIBLING over push events)",
            "R14b visit-once and SearchControl dispatch in SearchImpl (MUST/TABLE)",
-           "R14c distance increments (TABLE)"]
+           "R14c distance increments (TABLE)",
+           "R08e a freed graph slot is fully reset (shared with C08)"]
 UNDECIDED = ["the resulting order and reachability on concrete graphs (needs execution)",
              "a search started at an edge also returns that edge's siblings (lazy sibling chaining): a behavioural "
              "consequence no exact structural rule separates from the intended behaviour; not reported"]
